@@ -178,3 +178,66 @@ func Replay(t TB, h func()) {
 		t.Fatalf("VX replay: %s", outcome)
 	}
 }
+
+// ---- 256-bit words for specifications (independent of the code under test) ----
+
+// W256 is a 256-bit unsigned integer, little-endian 64-bit words. In the engine its operations
+// are single SMT bit-vector operations; natively they are computed with math/big.
+type W256 [4]uint64
+
+func (a W256) big() *big.Int {
+	r := new(big.Int)
+	for i := 3; i >= 0; i-- {
+		r.Lsh(r, 64)
+		r.Or(r, new(big.Int).SetUint64(a[i]))
+	}
+	return r
+}
+
+func w256FromBig(v *big.Int) W256 {
+	var r W256
+	m := new(big.Int).SetUint64(^uint64(0))
+	for i := 0; i < 4; i++ {
+		r[i] = new(big.Int).And(new(big.Int).Rsh(v, uint(64*i)), m).Uint64()
+	}
+	return r
+}
+
+// W256Input is an arbitrary 256-bit value.
+func W256Input(name string) W256 { return w256FromBig(val(name)) }
+
+func W256From64(v uint64) W256 { return W256{v, 0, 0, 0} }
+
+// W256FromBytes interprets 32 big-endian bytes.
+func W256FromBytes(b [32]byte) W256 { return w256FromBig(new(big.Int).SetBytes(b[:])) }
+
+func (a W256) Bytes() [32]byte {
+	var out [32]byte
+	a.big().FillBytes(out[:])
+	return out
+}
+func (a W256) Shr(n uint) W256 { return w256FromBig(new(big.Int).Rsh(a.big(), n)) }
+func (a W256) Shl(n uint) W256 { return w256FromBig(new(big.Int).Lsh(a.big(), n)) }
+func (a W256) And(b W256) W256 { return W256{a[0] & b[0], a[1] & b[1], a[2] & b[2], a[3] & b[3]} }
+func (a W256) Or(b W256) W256  { return W256{a[0] | b[0], a[1] | b[1], a[2] | b[2], a[3] | b[3]} }
+func (a W256) Xor(b W256) W256 { return W256{a[0] ^ b[0], a[1] ^ b[1], a[2] ^ b[2], a[3] ^ b[3]} }
+func (a W256) Eq(b W256) bool  { return a == b }
+func (a W256) Lt(b W256) bool  { return a.big().Cmp(b.big()) < 0 }
+func (a W256) IsZero() bool    { return a == W256{} }
+
+// Bit returns bit i (0 = least significant); 0 for i >= 256.
+func (a W256) Bit(i uint) uint8 {
+	if i >= 256 {
+		return 0
+	}
+	return uint8(a[i/64] >> (i % 64) & 1)
+}
+
+// W256Mask returns 2^n - 1 (all ones for n >= 256).
+func W256Mask(n uint) W256 {
+	if n >= 256 {
+		return W256{^uint64(0), ^uint64(0), ^uint64(0), ^uint64(0)}
+	}
+	m := new(big.Int).Lsh(big.NewInt(1), n)
+	return w256FromBig(m.Sub(m, big.NewInt(1)))
+}
